@@ -33,6 +33,9 @@ def check(ctx):
     ctx.rule("R19.5", "no one-shot latch is reachable from fit on an object held in a constructor parameter; a Moment's "
                       "load_data re-assigns every attribute its query methods read")
     ctx.rule("R19.6", "fit never fits the un-copied constructor-parameter estimator (outside prefit)")
+    ctx.rule("R19.8", "__init__ stores every constructor parameter under its own name, verbatim or through an idempotent scalar "
+                      "conversion of that same argument (float/int/bool/str): get_params / clone rebuild an identically "
+                      "configured estimator from those attributes")
     ctx.rule("R19.7", "no unpicklable value (lambda, nested function, generator, map/filter/zip object) is stored in the "
                       "state of the picklable estimators")
     n_fit = n_pred = 0
@@ -58,6 +61,7 @@ def check(ctx):
             ctx.guard(_predict_rules, ctx, A, cls, m, fi, r, is_subject)
     ctx.floor("R19.2", "fit / partial_fit methods of the subject estimators", n_fit, 8)
     ctx.floor("R19.4", "predict-type methods of the subject estimators", n_pred, 11)
+    ctx.guard(_ctor_verbatim, ctx, subjects + (others if ctx.tier == "thorough" else []), subjects)
     ctx.guard(_latches, ctx)
     ctx.guard(_reload_completeness, ctx)
     ctx.guard(_pickle, ctx)
@@ -295,6 +299,43 @@ def _predict_rules(ctx, A, cls, m, fi, r, is_subject):
                             f"{cname}.{m} calls self._validate_data(...) without reset=False", "_validate_data resets in " + m)
     if not bad:
         ctx.ob("R19.4", fi.fq, None, True, f"{cname}.{m} writes no estimator state", construct=f"{cname}.{m} is pure")
+
+
+IDEMPOTENT = ("builtins.float", "builtins.int", "builtins.bool", "builtins.str")  # f(f(x)) is f(x): clone(get_params()) is stable
+
+
+def _ctor_verbatim(ctx, classes, subjects):
+    prog = ctx.prog
+    A = Analysis(ctx, max_depth=4)
+    n = 0
+    for cls in classes:
+        fi = prog.lookup_method(cls, "__init__")
+        if fi is None or fi.cls not in prog.classes:
+            continue
+        r = A.run(fi.fq, cls_ctx=cls)
+        if r.final is None:
+            continue
+        n += 1
+        bad = []
+        for p in prog.ctor_params(cls):
+            if p not in r.params:
+                continue  # declared by a base class and forwarded through **kwargs
+            v = r.final.heap.get((r.self_term, p))
+            idem = v is not None and v.op == "call" and v.args[0].op == "global" and v.args[0].args[0] in IDEMPOTENT \
+                and len(v.args[1]) == 1 and v.args[1][0] is r.params[p] and not v.args[2]
+            if v is not r.params[p] and not idem:
+                bad.append((p, v))
+        cname = cls.split(":")[1]
+        if bad:
+            p, v = bad[0]
+            _note_or_ob(ctx, cls in subjects, "R19.8", fi.fq, None, False,
+                        f"{cname}.__init__ stores {'nothing' if v is None else show(v, maxdepth=3)[:80]} in self.{p} instead of the "
+                        f"argument itself ({len(bad)} parameter(s)): get_params()/clone no longer reproduce the configuration",
+                        f"{cname}.__init__ verbatim")
+        else:
+            ctx.ob("R19.8", fi.fq, None, True, f"{cname}.__init__ stores its {len(prog.ctor_params(cls))} parameters verbatim",
+                   construct=f"{cname}.__init__ verbatim")
+    ctx.floor("R19.8", "estimator constructors", n, 5)
 
 
 def _latch_facts(A, prog, cls, mname):
